@@ -74,8 +74,11 @@ def gen_case(rng, tier, index):
             lines.append({"k": rng.choice(ordk)})
         elif r < 0.28 and "lea_sym" in v:
             lines.append({"k": rng.choice(
-                [k for k in ("lea_sym", "mov_sym", "cmp_sym", "movi_sym")
+                [k for k in ("lea_sym", "mov_sym", "cmp_sym", "movi_sym",
+                             "addlo_sym", "ldrlo_sym", "lui_hi", "addiu_lo")
                  if k in v]), "t": target(False)})
+            if rng.random() < 0.35:
+                lines[-1]["add"] = rng.choice([4, 8, 16, 24])
         elif r < 0.34 and "jmp" in v:
             lines.append({"k": "jmp", "t": target(True)})
         elif r < 0.39 and "jne" in v:
@@ -158,7 +161,10 @@ def render(c):
     be = isa == "mips32"
     for ln in c["lines"]:
         if "k" in ln:
-            out.append(vocab.asm_text(isa, ln["k"], ln.get("t"),
+            tgt = ln.get("t")
+            if tgt is not None and ln.get("add"):
+                tgt = f"{tgt}+{ln['add']}"
+            out.append(vocab.asm_text(isa, ln["k"], tgt,
                                       ln.get("imm"), intel=c["intel"]))
         elif "l" in ln:
             out.append(ln["l"] + ":")
@@ -539,12 +545,13 @@ def run_case(c):
                 e = vocab.VOCAB[isa][ln["k"]]
                 off, sz = e["sym"]
                 branch = e["kind"] in ("jmp", "jcc", "call")
-                want[p + off] = (ln["t"], 0, sz, branch)
+                want[p + off] = (ln["t"], ln.get("add", 0), sz, branch,
+                                 set(e["attrs"]))
             elif kind == "D" and ln["d"] in ("quadsym", "longsym"):
                 want[p] = (ln["t"], ln["add"],
-                           8 if ln["d"] == "quadsym" else 4, False)
+                           8 if ln["d"] == "quadsym" else 4, False, set())
             elif kind == "D" and ln["d"] in ("uleb", "sleb"):
-                want[p] = ((ln["t"], ln["t2"]), 0, 1, False)
+                want[p] = ((ln["t"], ln["t2"]), 0, 1, False, set())
         got = sect.symbolic_expressions
         for off in sorted(set(want) | set(got)):
             ctr["expressions_compared"] += 1
@@ -557,7 +564,7 @@ def run_case(c):
                              "msg": f"{sname}+{off} {got[off]}"})
                 continue
             e = got[off]
-            tname, add, sz, branch = want[off]
+            tname, add, sz, branch, op_attrs = want[off]
             if isinstance(tname, tuple):
                 if not (isinstance(e, gtirb.SymAddrAddr) and
                         e.symbol1 is msyms[tname[0]] and
@@ -593,7 +600,7 @@ def run_case(c):
                              "msg": f"{e.offset} != {add}"})
             is_proxy = isinstance(e.symbol.referent, gtirb.ProxyBlock)
             want_attrs = {"PLT"} if (attr_plt and branch and is_proxy) \
-                else set()
+                else set(op_attrs)
             got_attrs = {a.name for a in e.attributes}
             if got_attrs != want_attrs:
                 viol.append({"key": "asm:expression-attributes",
